@@ -148,6 +148,33 @@ def corruptions(run, report, seed):
     ev = copy.deepcopy(sb)
     ev[i]["stages"][k]["ints"][2] += 1
     report("the rank handed to the gamma callback changed -> S.gamma.rank", "S.gamma.rank" in sverdicts(ev))
+    # the inside of a prediction (Stages!PredictStageFails)
+    s6 = Session()
+    s6.stages_on = True
+    drivers.predict_campaign(s6, random.Random(seed + 4), 12)
+    pb = s6.events
+    report("accepted prediction stage records have no failing clause", sverdicts(pb) == [])
+
+    def pstage_at(name, op=None):
+        for i, e in enumerate(pb):
+            if e["op"] in ("win", "draw", "rank") and (op is None or e["op"] == op) and e["out"]["kind"] == "ok":
+                for k, st in enumerate(e.get("stages", [])):
+                    if st["name"] == name:
+                        return i, k
+        raise MachineryError("selftest: no prediction stage %s" % name)
+
+    i, k = pstage_at("phi", "win")
+    ev = copy.deepcopy(pb)
+    ev[i]["stages"][k]["nums"][0] = repr(float(ev[i]["stages"][k]["nums"][0]) * 1.001 + 1e-3)
+    report("an observed argument of the CDF changed -> S.phi.argument_not_of_the_rule", "S.phi.argument_not_of_the_rule" in sverdicts(ev))
+    ev = copy.deepcopy(pb)
+    ev[i]["stages"][k]["nums"] = ev[i]["stages"][k]["nums"][:-1]
+    ev[i]["stages"][k]["nums2"] = ev[i]["stages"][k]["nums2"][:-1]
+    report("one pair not evaluated -> S.phi.count", "S.phi.count" in sverdicts(ev))
+    i, k = pstage_at("rank_in", "rank")
+    ev = copy.deepcopy(pb)
+    ev[i]["stages"][k]["ints"][0] += 1
+    report("an observed rank of the ranked vector changed -> S.rank_in.not_competition_ranking", "S.rank_in.not_competition_ranking" in sverdicts(ev))
     # model construction (Sem!Construct): what the object holds against what was asked for
     s4 = Session()
     drivers.construct_campaign(s4, random.Random(seed + 2), 25)
